@@ -22,3 +22,10 @@ e1("C01", "Translation validation of the real lowering against an independent Sy
           "evaluated in the reference formula and range-checked. Bounded in the program dimension (families listed in the evidence).",
    "translation validation: z3 equivalence/implication between the mirrored Boolector formula and a reference lowering; replay via pinned inline constraints",
    "DESIGN.md section 6 C01")
+
+e1("C02", "Translation validation used as a satisfiability oracle: for each enumerated program and each concrete assignment of the non-random "
+          "fields z3 decides whether the reference constraints are satisfiable over ALL random-field values; the real call must raise "
+          "SolveFailure iff they are not, must raise nothing else, and the hard formula it asserted must not exclude any reference "
+          "solution (Q2). Includes conditions folded before solving (non-random if-conditions inside foreach) and just-satisfiable systems.",
+   "translation validation: z3 satisfiability of the reference vs the real verdict/exception; Q2 (reference implies asserted formula); replay by pinning a legal solution",
+   "DESIGN.md section 6 C02")
